@@ -3,11 +3,11 @@
 (* Trace validation for Renter (property C10): every outcome recorded by   *)
 (* harness/renterx from the REAL client functions -- one NDJSON line       *)
 (*   {op:"Case", rpc, variant, faults:[{msg,field,how,k}], eff:[...],      *)
-(*    outcome, bound}                                                      *)
+(*    outcome, bound, wire}                                                *)
 (* per executed case -- must be a member of the fault space of Renter.tla  *)
 (* (Plans), obey its acceptance rule (Allowed, applied to the faults that  *)
 (* actually changed the bytes on the wire: eff) and satisfy the invariants *)
-(* SuccessImpliesBound / HonestSucceeds / TypeOK of Renter.tla, which TLC  *)
+(* SuccessImpliesBound / HonestSucceeds / WireNormalForm / TypeOK, which TLC *)
 (* evaluates on the recorded (outcome, bound).  `bound` is ground truth    *)
 (* computed by the harness.                                                *)
 (***************************************************************************)
@@ -38,6 +38,7 @@ TCase ==
            /\ pos' = Len(Msgs(Ev.rpc))
            /\ outcome' = Ev.outcome
            /\ bound' = Ev.bound
+           /\ wire' = Ev.wire
            /\ act' = [op |-> "Case"]
     /\ l' = l + 1
 
